@@ -1130,20 +1130,45 @@ func FindNextTag(source string, startPos int) TagLocation {
 }
 
 // printTagEnd returns the position of the "}}" that ends the print tag whose content
-// starts at from, or -1. Braces opened inside the tag are closed first, so that the end
+// starts at from, or -1. String literals are skipped and braces opened inside the tag are closed first, so that the end
 // of a hash literal is not taken for the end of the tag: {{ {'a': {'b': 2}} }} and
 // {{ {'a': 1}}} end where {{ {'a': 1}-}} always did. When the braces of the tag do not
-// pair up the caller falls back to the first "}}".
+// pair up, or pair up only beyond the start of another tag, the caller falls back to
+// the first "}}".
 func printTagEnd(source string, from int) int {
 	depth := 0
 	for i := from; i < len(source); i++ {
 		switch source[i] {
+		case '\'', '"':
+			// skip a string literal (it ends the way the expression tokenizer ends it: at the
+			// next quote of the same kind that no backslash precedes)
+			quote, closed := source[i], false
+			for j := i + 1; j < len(source); j++ {
+				if source[j] == quote && source[j-1] != '\\' {
+					i, closed = j, true
+					break
+				}
+			}
+			if !closed {
+				return -1
+			}
 		case '{':
 			depth++
 		case '}':
 			if depth > 0 {
 				depth--
 			} else if i+1 < len(source) && source[i+1] == '}' {
+				// Braces inside string literals ({{ '{{' }}) unbalance the count and would
+				// carry the search into the text and tags that follow: an end that lies
+				// beyond the first "}}" is only believed when nothing that opens a tag
+				// stands in between
+				first := strings.Index(source[from:], "}}")
+				if first >= 0 && from+first < i {
+					between := source[from+first : i]
+					if strings.Contains(between, "{{") || strings.Contains(between, "{%") || strings.Contains(between, "{#") {
+						return -1
+					}
+				}
 				return i
 			}
 		}
